@@ -54,7 +54,7 @@ class Contract:
         self.only_raises_ = None   # list of class names; None = not checked (then callers assume nothing raises!)
         self.loops = {}
         self.sites = []
-        self.modifies_ = []        # list of fn(it, bound) performing havoc at call sites
+        self.mod_cells = []        # declared write footprint: (param, field) cells, havocked at call sites, checked on the body
         self.frame_ = None         # checked frame: allowed (param, field) cells
         self.py_readings = {}      # clause name -> CPython reading used by the replay oracle
         self.inline = False
@@ -123,8 +123,13 @@ class Contract:
     def site(self, name, pattern, goal, props=(), min_sites=1):
         self.sites.append(SiteSpec(name, pattern, goal, props, min_sites))
 
-    def modifies(self, fn):
-        self.modifies_.append(fn)
+    def modifies(self, *cells):
+        """declared write footprint: ('param', 'field') cells of objects that exist at entry.  Call sites forget exactly these
+        cells; the body is checked to change nothing else of the entry-time heap (obligation frame:...), so what callers keep
+        assuming about the other cells is proved, not assumed"""
+        for c in cells:
+            assert isinstance(c, tuple) and len(c) == 2, 'modifies takes (param, field) cells'
+            self.mod_cells.append(c)
 
     def frame(self, *allowed):
         """checked frame condition: of the objects that existed at entry only the cells (param, field) listed may differ at
@@ -489,8 +494,17 @@ class VEngine(Engine):
             goal = fn(env0)
             ctx.oblige('pre', '%s/%s' % (con.qualname, name), goal,
                        {'line': getattr(node, 'lineno', None)})
-        for mod in con.modifies_:
-            mod(it, bound)
+        for p_, f_ in con.mod_cells:
+            if p_ == '*':
+                # any object's cell of that field (objects reached through the parameters, not parameters themselves)
+                ty_ = it.engine.field_type(f_)
+                ctx.heap[f_] = ctx.fresh_const('mod!%s!%s' % (con.qualname.split('.')[-1], f_), z3.ArraySort(RefSort, ty_.sort()))
+                continue
+            v_ = bound[p_]
+            if not hasattr(v_, 't'):
+                v_ = ctx.force(v_)
+            ty_ = it.engine.field_type(f_)
+            ctx.heap[f_] = z3.Store(ctx.field_array(f_), v_.t, ctx.fresh_const('mod!%s!%s' % (con.qualname.split('.')[-1], f_), ty_.sort()))
         outcomes = ['return'] + list(con.only_raises_ or [])
         d = ctx.choose(len(outcomes), 'call:' + con.qualname) if len(outcomes) > 1 else 0
         out = outcomes[d]
@@ -683,8 +697,7 @@ def verify_function(repo, con, schema, lib, registry=None, engine_cls=VEngine, n
     def check_frame(it, con, kind):
         """nothing outside the frame changed: for every heap field written on this path and a fresh (Skolem) entry-time
         reference r, heap[f][r] equals the entry value unless (r, f) is an allowed cell"""
-        if con.frame_ is None:
-            return
+        allowed = con.frame_ if con.frame_ is not None else tuple(con.mod_cells)
         ctx = it.ctx
         r = ctx.fresh_const('frame!r', RefSort)
         goals = []
@@ -696,12 +709,19 @@ def verify_function(repo, con, schema, lib, registry=None, engine_cls=VEngine, n
             if cur.eq(old):
                 continue
             expect = old
-            for p, pf in con.frame_:
+            if any(p == '*' and pf == f for p, pf in allowed):
+                continue
+            for p, pf in allowed:
                 if pf == f:
                     ref = it.entry_args[p].t
                     expect = z3.Store(expect, ref, z3.Select(cur, ref))
             goals.append(z3.Select(cur, r) == z3.Select(expect, r))
-        name = 'frame:only %s may change' % (', '.join('%s.%s' % a for a in con.frame_) or 'nothing')
+        if os.environ.get('VERIF_FRAME_DEBUG') and goals:
+            import sys
+            print('FRAMEDBG', con.qualname, sorted(f for f in ctx.heap if not ctx.heap[f].eq(it.entry_heap.get(f) if it.entry_heap.get(f) is not None else initial_array(eng, f))), file=sys.stderr)
+        if not goals and con.frame_ is None:
+            return
+        name = 'frame:only %s may change' % (', '.join('%s.%s' % a for a in allowed) or 'nothing')
         ctx.oblige(kind, name, z3.Implies(z3.And(r >= 0, r < type(ctx).BASE), z3.And(*goals) if goals else z3.BoolVal(True)))
 
     def check_exceptional(it, fr, con, exc, yields):
